@@ -3,10 +3,10 @@ import json
 from vlib import *
 from checks.subs_common import take
 
-ALL_ACTS = {"Create", "Activate", "Close", "Service", "Discovery", "ChannelChange", "TimePasses"}
+ALL_ACTS = {"Create", "Activate", "Close", "Service", "Discovery", "ChannelChange", "Tick"}
 BASE = dict(NConns=2, NSlots=2, Secure=False, DevChanPerConn=False, DevStaleNonce=False, Acts=ALL_ACTS, ActKinds={"anon"},
-            SvcKinds={"Read", "Write"}, Creds={"good", "bad"}, ExtraToks={0, 8}, Warm=False, MaxDepth=6)
-ARGS = ("ev", "conn", "tok", "kind", "cred", "g")
+            SvcKinds={"Read", "Write"}, Creds={"good", "bad"}, ExtraToks={0, 8}, Timeouts={2}, Dts={3}, Warm=False, MaxDepth=6)
+ARGS = ("ev", "conn", "tok", "kind", "cred", "g", "d", "tmo")
 
 
 def consts(**kw):
@@ -35,7 +35,7 @@ def compare_drift(cases, obs_path):
             if e is None or o["case"] in bad:
                 continue
             n += 1
-            keys = ["fail", "class", "chan", "beyond", "st"]
+            keys = ["fail", "class", "chan", "tmo", "beyond", "st"]
             if e["ev"] == "Service":
                 keys.append("effect")
             if e.get("code") not in (None, "BadAuth"):
